@@ -23,7 +23,12 @@ REQUIRED = [
     'Ems.C13.normalize_preserves_valid',
     'Ems.C13.sign_only_succeeds', 'Ems.C13.sign_only_sign', 'Ems.C13.sign_only_bounds',
     'Ems.C13.sign_only_data_untouched', 'Ems.C13.sign_only_idempotent', 'Ems.C13.sign_only_none_identity',
+    # B1: about the loop body generated from the source of normalize_depth_variables (harness/trans_depth.py)
+    'Ems.C13.normalize_frame_generated', 'Ems.C13.normalize_src_head', 'Ems.C13.normalize_src_flip',
+    'Ems.C13.normalize_src_order', 'Ems.C13.normalize_body_spec', 'Ems.C13.normalize_src_spec',
+    'Ems.C13.normalize_src_succeeds',
 ]
+EXTRA_MODULES = ['EmsModel.Props.C13Src']
 RULE = ('(a) systematic block: one depth coordinate per dataset over the product {positive attribute present, '
         'absent} x {no bounds, bounds as data variable, bounds as coordinate} x {dimension coordinate, auxiliary '
         'coordinate, plain variable} x {ascending, descending} x {values positive-up, positive-down} = 72 '
@@ -744,6 +749,14 @@ def run(ctx) -> None:
         one_level_dataset(db, names, 'one-level-mixed', ('mixed', levels, shared), vias)
         chains(db, names, 'chain-one-level', vias[0], SIGN_OPTS, 2)
 
+    # ---- B1 begin: cross-check of the source translator (harness/trans_depth.py -> Gen.depthNormalizeBody) ------
+    # a sample of the `norm` lines above is also run through the loop body GENERATED from the source text of
+    # normalize_depth_variables (driver op `srcnorm`: the interpreter of Core/DepthSrc.lean) against the same real output
+    src_items = [('src' + line, impl, dict(desc, op='src' + line, stream='src:' + str(desc.get('stream', ''))))
+                 for (line, impl, desc) in items if line.startswith('norm ')]
+    items += src_items[::max(1, len(src_items) // 400)]
+    # ---- B1 end ---------------------------------------------------------------------------------------------
+
     if ctx.searching and ctx.driver is None:
         ctx.evaluated(len(items))
         return
@@ -756,6 +769,9 @@ def replay(ctx, data) -> int:
 
 def run_one(ctx, inp: dict) -> dict:
     stream = inp.get('stream', '')
+    if stream.startswith('src:'):          # B1: a line of the source-translator cross-check replays as its `norm` twin
+        stream = stream[4:]
+        inp = dict(inp, stream=stream)
     db = build_malformed(inp['recipe']) if stream.startswith('malformed') else D.build(inp['recipe'])
     out = {}
     op = inp.get('op', '')
